@@ -98,3 +98,8 @@ META.update({
 
 NOT_YET = {
 }
+
+
+# obligation floors: half of what the quick tier counted on the pinned tree (2026-10-02). A run that finds no violation but
+# discharges fewer obligations than this has lost its anchors (impls not found, rules returning early): no verdict.
+OB_FLOOR = {'C01': 28600, 'C02': 24491, 'C03': 7187, 'C04': 4411, 'C05': 112208, 'C06': 4683, 'C07': 24467, 'C08': 1704, 'C09': 2614, 'C10': 6278, 'C11': 25241, 'C12': 2402, 'C13': 30408, 'C14': 2756, 'C15': 187, 'C16': 6082}
